@@ -112,8 +112,13 @@ func Decode(gauge common.MemoryGauge, b []byte, options ...Option) (cadence.Valu
 // NewDecoder initializes a Decoder that will decode JSON-encoded bytes from the
 // given io.Reader.
 func NewDecoder(gauge common.MemoryGauge, r io.Reader) *Decoder {
+	dec := json.NewDecoder(r)
+	// Decode JSON numbers as json.Number instead of float64,
+	// so that large numbers do not lose precision
+	dec.UseNumber()
+
 	return &Decoder{
-		dec:         json.NewDecoder(r),
+		dec:         dec,
 		gauge:       gauge,
 		pathContext: make([]pathElement, 0, 8),
 	}
@@ -1786,12 +1791,17 @@ func toBool(valueJSON any) bool {
 }
 
 func toUInt(valueJSON any) uint {
-	v, ok := valueJSON.(float64)
+	v, ok := valueJSON.(json.Number)
 	if !ok {
 		panic(errors.NewDefaultUserError("expected JSON number, got %s", valueJSON))
 	}
 
-	return uint(v)
+	result, err := strconv.ParseUint(v.String(), 10, strconv.IntSize)
+	if err != nil {
+		panic(errors.NewDefaultUserError("invalid unsigned integer: %s", v))
+	}
+
+	return uint(result)
 }
 
 func toString(valueJSON any) string {
